@@ -475,6 +475,10 @@ class ChunkSeq(Grid):
             return c
         return n - (ln - 1) * c
 
+    def rep_indices(self, interp):
+        """indices whose elements represent every element (a regular grid has at most two distinct block sizes)"""
+        return [0, self.length() - 1]
+
     def prefix(self, interp, k):
         """sum of the first k block sizes, 0 <= k <= len."""
         n, c = self.n, self.c
